@@ -200,6 +200,18 @@ def run_case(case):
                     d_ = parts[0]
                     k.mkdir("/sys/block/" + d_["name"].replace("/", "!"))
                     late = (d_, psutil.disk_io_counters(perdisk=False, nowrap=False))
+            # every disk counter restarts lower (device re-created) and the
+            # documented cache_clear() is called: the default per-disk call
+            # (nowrap=True) must report the kernel's values again
+            reset = None
+            if not sysfs_mode and disks:
+                psutil.disk_io_counters(perdisk=True)
+                lower = [dict(d, vals=[v // 2 for v in d["vals"]]) for d in disks]
+                k.set_file("/proc/diskstats", render_diskstats(lower))
+                psutil.disk_io_counters.cache_clear()
+                reset = (lower, psutil.disk_io_counters(perdisk=True))
+                k.set_file("/proc/diskstats", render_diskstats(disks))
+                psutil.disk_io_counters.cache_clear()
             # an interface goes away and comes back with smaller counters
             # (re-created veth, replugged adapter): the default call
             # (nowrap=True) must again report exactly the kernel's counters
@@ -267,6 +279,15 @@ def run_case(case):
                             f"{[d['name'] for d in whole_listed]}")
     if perdisk_w != perdisk or dtot_w != dtot:
         raise Violation("disk-nowrap-fresh", "nowrap=True on a fresh cache differs")
+    if reset is not None:
+        lower, got_pd = reset
+        for d_ in lower:
+            e = expected_disk(d_, sysfs_mode)
+            g = got_pd.get(name_of(d_))
+            if g is None or tuple(g) != e:
+                raise Violation("disk-perdisk", f"{d_['name']}: counters restarted lower and cache_clear() was "
+                                                f"called; disk_io_counters(perdisk=True) reports {g!r}, kernel {e}")
+        labels.add("disk-counters-reset-then-cache_clear")
     if late is not None:
         d_, got_tot = late
         now_whole = whole_listed + [d_]
